@@ -1,3 +1,457 @@
 package main
 
-func cmdCheck(args []string) {}
+// Property checks: select obligations per property, discharge, report, write evidence.
+
+import (
+	"encoding/json"
+	"flag"
+	"fmt"
+	"os"
+	"path/filepath"
+	"sort"
+	"strconv"
+	"strings"
+	"time"
+)
+
+type PropUnit struct {
+	Unit string   `json:"unit"`
+	Sel  []string `json:"sel"` // "all", "shared", "tag", "safety", or explicit kinds
+	Lock bool     `json:"lock,omitempty"`
+}
+
+type PropCfg struct {
+	ID          string     `json:"id"`
+	Title       string     `json:"title"`
+	Units       []PropUnit `json:"units"`
+	Explanation string     `json:"explanation"`
+	Assumptions []string   `json:"assumptions"`
+	Bounded     []string   `json:"bounded,omitempty"`
+	MinObligs   int        `json:"min_obligations"`
+	Extra       []string   `json:"extra_checks,omitempty"`
+}
+
+type KnownFinding struct {
+	Property   string `json:"property"`
+	Obligation string `json:"obligation"`
+	Status     string `json:"status"` // known | fixed
+	Input      string `json:"input,omitempty"`
+	What       string `json:"what"`
+	Commit     string `json:"commit,omitempty"`
+}
+
+var safetyKinds = map[string]bool{"index": true, "slice": true, "nil": true, "div": true, "makeslice": true,
+	"typeassert": true, "panic": true, "shift": true}
+
+func hasTag(o *Oblig, tag string) bool {
+	for _, t := range o.Tags {
+		if t == tag {
+			return true
+		}
+	}
+	return false
+}
+
+func selected(o *Oblig, pu PropUnit, prop string) bool {
+	if o.Cover {
+		return true
+	}
+	for _, s := range pu.Sel {
+		switch s {
+		case "all":
+			return true
+		case "safety":
+			if safetyKinds[o.Kind] {
+				return true
+			}
+		case "tag":
+			if hasTag(o, prop) {
+				return true
+			}
+		case "shared":
+			if !safetyKinds[o.Kind] && len(o.Tags) == 0 {
+				return true
+			}
+		default:
+			if o.Kind == s {
+				return true
+			}
+		}
+	}
+	return false
+}
+
+func cmdCheck(args []string) {
+	fs := flag.NewFlagSet("check", flag.ExitOnError)
+	repo := fs.String("repo", "/repo", "repository")
+	prop := fs.String("prop", "", "property id")
+	tier := fs.String("tier", "quick", "quick|thorough")
+	vdir := fs.String("verif", "/verif", "verif directory")
+	evidence := fs.Bool("evidence", true, "write evidence file")
+	verbose := fs.Bool("v", false, "verbose")
+	fs.Parse(args)
+	t0 := time.Now()
+	seed := 0
+	if s := os.Getenv("VERIF_SEED"); s != "" {
+		seed, _ = strconv.Atoi(s)
+	}
+	if t := os.Getenv("VERIF_TIER"); t != "" && *tier == "" {
+		*tier = t
+	}
+	die := func(code int, f string, a ...any) {
+		fmt.Printf("ENGINE-ERROR property=%s %s\n", *prop, fmt.Sprintf(f, a...))
+		os.Exit(code)
+	}
+	var props map[string]*PropCfg
+	data, err := os.ReadFile(filepath.Join(*vdir, "props.json"))
+	if err != nil {
+		die(2, "props.json: %v", err)
+	}
+	if err := json.Unmarshal(data, &props); err != nil {
+		die(2, "props.json: %v", err)
+	}
+	pc := props[*prop]
+	if pc == nil {
+		die(2, "unknown property")
+	}
+	pc.ID = *prop
+	var known []KnownFinding
+	if data, err := os.ReadFile(filepath.Join(*vdir, "known_findings.json")); err == nil {
+		if err := json.Unmarshal(data, &known); err != nil {
+			die(2, "known_findings.json: %v", err)
+		}
+	}
+	env, err := loadEnv(*repo)
+	if err != nil {
+		// the tree does not load/type-check: undecided
+		die(2, "cannot load %s: %v", *repo, err)
+	}
+	cfg := &SolverCfg{QuickMs: 3000, FullMs: 10000, CacheDir: filepath.Join(*vdir, ".cache"), Workers: 16,
+		KeepDir: filepath.Join(*vdir, "out", *prop)}
+	if *tier == "thorough" {
+		cfg.FullMs = 60000
+		cfg.Confirm = true
+	}
+	os.RemoveAll(cfg.KeepDir)
+	// expand units
+	type uref struct {
+		key string
+		pu  PropUnit
+	}
+	var urefs []uref
+	seenU := map[string]bool{}
+	var unbound []string
+	for _, pu := range pc.Units {
+		var keys []string
+		if strings.HasSuffix(pu.Unit, "*") {
+			for k := range env.funcs {
+				if strings.HasPrefix(k, strings.TrimSuffix(pu.Unit, "*")) && !strings.Contains(k, "$") {
+					keys = append(keys, k)
+				}
+			}
+			sort.Strings(keys)
+			if len(keys) == 0 {
+				unbound = append(unbound, pu.Unit)
+			}
+		} else {
+			if env.funcs[pu.Unit] == nil {
+				unbound = append(unbound, pu.Unit)
+				continue
+			}
+			keys = []string{pu.Unit}
+		}
+		for _, k := range keys {
+			if !seenU[k] {
+				seenU[k] = true
+				urefs = append(urefs, uref{k, pu})
+			}
+		}
+	}
+	var units []*Unit
+	puOf := map[*Unit]PropUnit{}
+	for _, ur := range urefs {
+		u := verifyUnit(env, ur.key, env.funcs[ur.key], UnitOpts{LockMode: ur.pu.Lock})
+		units = append(units, u)
+		puOf[u] = ur.pu
+	}
+	// contracts naming functions that do not exist
+	for k := range env.con.Funcs {
+		if env.funcs[k] == nil && !strings.Contains(k, ".") {
+			// library / interface contracts are keyed with a dot; plain names must exist
+			unbound = append(unbound, "contract for missing function "+k)
+		} else if env.funcs[k] == nil && isLocalKey(env, k) {
+			unbound = append(unbound, "contract for missing function "+k)
+		}
+	}
+	dischargeAll(units, cfg, func(o *Oblig) bool {
+		return true
+	})
+	// collect
+	type sample struct {
+		Name   string `json:"obligation"`
+		Kind   string `json:"kind"`
+		Pos    string `json:"pos"`
+		Result string `json:"result"`
+		Solver string `json:"solver"`
+		Ms     int64  `json:"ms"`
+	}
+	total, discharged := 0, 0
+	var failed []*Oblig
+	var vacuous []*Oblig
+	var slowest []sample
+	var samples []sample
+	var unsupported []string
+	notes := map[string]bool{}
+	trusted := map[string]bool{}
+	inlined := map[string]bool{}
+	var fnames []string
+	covers, coversSat := 0, 0
+	unitFail := map[string]bool{}
+	for _, u := range units {
+		fnames = append(fnames, u.Key)
+		for _, m := range u.Unsupported {
+			unsupported = append(unsupported, u.Key+": "+m)
+		}
+		for n := range u.Notes {
+			notes[n] = true
+		}
+		for n := range u.Trusted {
+			trusted[n] = true
+		}
+		for n := range u.Inlined {
+			inlined[n] = true
+		}
+		for _, o := range u.Obligs {
+			if o.Cover {
+				continue
+			}
+			if !selected(o, puOf[u], *prop) {
+				continue
+			}
+			total++
+			if o.Result == "unsat" {
+				discharged++
+			} else {
+				failed = append(failed, o)
+				unitFail[u.Key] = true
+			}
+			s := sample{o.Name, o.Kind, o.Pos, o.Result, o.Solver, o.TimeMs}
+			slowest = append(slowest, s)
+			if len(samples) < 6 && !o.Trivial && (o.Kind == "ensures" || o.Kind == "loop-preserve" || len(samples) < 2) {
+				samples = append(samples, s)
+			}
+		}
+	}
+	for _, u := range units {
+		for _, o := range u.Obligs {
+			if !o.Cover {
+				continue
+			}
+			covers++
+			if o.Result != "unsat" {
+				coversSat++
+			} else if !unitFail[u.Key] {
+				vacuous = append(vacuous, o)
+			}
+		}
+	}
+	sort.Slice(slowest, func(i, j int) bool { return slowest[i].Ms > slowest[j].Ms })
+	if len(slowest) > 5 {
+		slowest = slowest[:5]
+	}
+	// verdicts
+	exit := 0
+	violations := 0
+	var knownHit []string
+	os.MkdirAll(filepath.Join(*vdir, "replays", *prop), 0o755)
+	for _, o := range failed {
+		isKnown := false
+		for _, k := range known {
+			if k.Property == *prop && k.Status == "known" && obligMatches(k.Obligation, o.Name) {
+				fmt.Printf("KNOWN-FINDING: property=%s %s %s\n", *prop, o.Name, k.What)
+				knownHit = append(knownHit, o.Name)
+				isKnown = true
+				break
+			}
+		}
+		if isKnown {
+			continue
+		}
+		violations++
+		rp := writeReplay(*vdir, *prop, o, env)
+		suffix := ""
+		if !rp.Reproduced {
+			suffix = " no-failing-input-found"
+		}
+		fmt.Printf("VIOLATION property=%s replay=%s obligation=%s result=%s%s\n", *prop, rp.Path, strconv.Quote(o.Name), o.Result, suffix)
+		exit = 1
+	}
+	// canaries: known findings that no longer fail
+	for _, k := range known {
+		if k.Property != *prop || k.Status != "known" {
+			continue
+		}
+		hit := false
+		for _, h := range knownHit {
+			if obligMatches(k.Obligation, h) {
+				hit = true
+			}
+		}
+		if !hit {
+			fmt.Printf("NOTE: known finding no longer reported: %s\n", k.Obligation)
+		}
+	}
+	engineErr := ""
+	if len(unsupported) > 0 {
+		engineErr = "unsupported: " + strings.Join(unsupported, "; ")
+	}
+	if len(unbound) > 0 {
+		engineErr += " UNBOUND contract: " + strings.Join(unbound, "; ")
+	}
+	if len(vacuous) > 0 && exit == 0 {
+		var ns []string
+		for _, o := range vacuous {
+			ns = append(ns, o.Name)
+		}
+		engineErr += " vacuous (cover unsat): " + strings.Join(ns, "; ")
+	}
+	if total < pc.MinObligs && exit == 0 {
+		engineErr += fmt.Sprintf(" obligation count %d below the recorded minimum %d", total, pc.MinObligs)
+	}
+	for _, u := range units {
+		for _, o := range u.Obligs {
+			if o.Result == "disagree" {
+				engineErr += " solver disagreement on " + o.Name
+			}
+		}
+	}
+	if engineErr != "" && exit == 0 {
+		fmt.Printf("ENGINE-ERROR property=%s %s\n", *prop, strings.TrimSpace(engineErr))
+		exit = 2
+	}
+	if *verbose {
+		for _, u := range units {
+			for _, o := range u.Obligs {
+				if !selected(o, puOf[u], *prop) {
+					continue
+				}
+				fmt.Printf("%-8s %-10s %6dms %s\n", o.Result, o.Solver, o.TimeMs, o.Name)
+			}
+		}
+	}
+	// evidence
+	if *evidence {
+		var noteList, trustedList, inlinedList []string
+		for n := range notes {
+			noteList = append(noteList, n)
+		}
+		for n := range trusted {
+			trustedList = append(trustedList, n)
+		}
+		for n := range inlined {
+			inlinedList = append(inlinedList, n)
+		}
+		sort.Strings(noteList)
+		sort.Strings(trustedList)
+		sort.Strings(inlinedList)
+		tb := []string{
+			"go/packages + go/types + go/ssa (x/tools v0.29.0): front end and lowering of the real source",
+			"kcpverif VC generator (this engine): symbolic execution, heap model, simplifier, SMT printer",
+			"SMT solvers z3 5.1.0 (z3-new), cvc5 1.0.3, z3 4.8.12",
+		}
+		for _, t := range trustedList {
+			tb = append(tb, "trusted contract (assumed, body not verified): "+t)
+		}
+		assumptions := append([]string{}, pc.Assumptions...)
+		assumptions = append(assumptions,
+			"64-bit int/uint64 arithmetic treated as mathematical (no-overflow assumed); all narrower integer types wrap explicitly",
+			"sequential semantics: each function verified as if running alone between lock operations; time and channel contents unconstrained",
+			"termination not proved")
+		assumptions = append(assumptions, noteList...)
+		bs := map[string]map[string]any{}
+		stats.mu.Lock()
+		for k, v := range stats.Count {
+			bs[k] = map[string]any{"queries": v, "cpu_ms": stats.CPUms[k]}
+		}
+		cached := stats.Cached
+		stats.mu.Unlock()
+		ev := map[string]any{
+			"property_id": *prop,
+			"tier":        *tier,
+			"seed":        seed,
+			"level":       "proof",
+			"coverage": map[string]any{
+				"obligations":              total,
+				"discharged":               discharged,
+				"checker_cmd":              fmt.Sprintf("/verif/bin/kcpverif check -prop %s -tier %s (obligations generated from %s by go/ssa symbolic execution, discharged by z3-new/cvc5/z3)", *prop, *tier, *repo),
+				"trusted_base":             tb,
+				"functions_under_contract": fnames,
+				"functions_inlined":        inlinedList,
+				"unsupported":              unsupported,
+				"by_solver":                bs,
+				"cache_hits":               cached,
+				"slowest":                  slowest,
+				"samples":                  samples,
+				"covers":                   map[string]int{"run": covers, "reachable_or_unknown": coversSat},
+				"known_findings":           knownHit,
+				"bounded":                  pc.Bounded,
+				"explanation":              pc.Explanation,
+				"arith":                    "arith int: mathematical Int with explicit mod 2^w wrap for 8/16/32-bit types",
+				"timeouts_ms":              map[string]int{"fast": cfg.QuickMs, "full": cfg.FullMs},
+			},
+			"assumptions": assumptions,
+			"wall_s":      time.Since(t0).Seconds(),
+			"violations":  violations,
+		}
+		os.MkdirAll(filepath.Join(*vdir, "evidence"), 0o755)
+		b, _ := json.MarshalIndent(ev, "", " ")
+		os.WriteFile(filepath.Join(*vdir, "evidence", *prop+".json"), b, 0o644)
+	}
+	fmt.Printf("property=%s tier=%s obligations=%d discharged=%d known=%d violations=%d wall=%.1fs\n",
+		*prop, *tier, total, discharged, len(knownHit), violations, time.Since(t0).Seconds())
+	os.Exit(exit)
+}
+
+func isLocalKey(env *Env, k string) bool {
+	// "Type.method" where Type is declared in the package
+	i := strings.Index(k, ".")
+	if i < 0 {
+		return true
+	}
+	tn := k[:i]
+	if strings.Contains(tn, "/") {
+		return false
+	}
+	return env.pkg.Types.Scope().Lookup(tn) != nil
+}
+
+func obligMatches(pattern, name string) bool {
+	if strings.HasSuffix(pattern, "*") {
+		return strings.HasPrefix(name, strings.TrimSuffix(pattern, "*"))
+	}
+	return pattern == name
+}
+
+type replayInfo struct {
+	Path       string
+	Reproduced bool
+}
+
+func writeReplay(vdir, prop string, o *Oblig, env *Env) replayInfo {
+	path := filepath.Join(vdir, "replays", prop, safeName(o.Name)+".json")
+	rec := map[string]any{
+		"property":      prop,
+		"obligation":    o.Name,
+		"kind":          o.Kind,
+		"function":      o.Fn,
+		"source_pos":    o.Pos,
+		"solver":        o.Solver,
+		"result":        o.Result,
+		"solver_output": o.Output,
+		"replay":        map[string]any{"attempted": false, "reproduced": false},
+		"verdict":       "no-failing-input-found",
+	}
+	b, _ := json.MarshalIndent(rec, "", " ")
+	os.WriteFile(path, b, 0o644)
+	return replayInfo{Path: path}
+}
